@@ -112,9 +112,9 @@ def search(rng, tier, broken):
     return {'tried': tried, 'failing': None}
 
 def is_known(f):
-    """known findings of C01: an uncertain real declared with result() combined with a plain complex number
-    (AssertionError in UncertainComplex.__init__), a zero-valued uncertain complex base of ** (ZeroDivisionError),
-    phase of a negative uncertain real"""
+    """known finding of C01 the oracle can meet: an uncertain real declared with result() combined with a plain complex
+    number (AssertionError in UncertainComplex.__init__).  (ZeroDivisionError is never reported by check_*value, and the
+    oracle keeps 0.05 away from the negative real axis for phase, so the phase finding cannot be met here.)"""
     if not isinstance(f, dict): return False
     def nontrivial_complex_literal(t):
         if isinstance(t, (list, tuple)):
@@ -128,10 +128,6 @@ def is_known(f):
         return False
     if ('AssertionError' in str(f.get('raised', '')) and 'interm' in f.get('roles', [])
             and nontrivial_complex_literal(f.get('ctree') or ())): return True
-    if 'ZeroDivisionError' in str(f.get('raised', '')): return True
-    def has_phase(t):
-        return isinstance(t, (list, tuple)) and ((t[0] == 'un' and t[1] == 'phase') or any(has_phase(x) for x in t[1:]))
-    if has_phase(f.get('tree') or f.get('ctree') or ()): return True
     return False
 
 def replay(payload):
